@@ -560,6 +560,7 @@ def run_fragment(body: Sequence[ast.stmt], names: Dict[str, Any], attrs: Optiona
                 continue
             if isinstance(st, ast.FunctionDef):
                 env[st.name] = st  # a local function: called (or handed on) by name
+                st._kv_env = env  # its free names are read in the environment it was defined in, wherever it is called from
                 continue
             if isinstance(st, ast.Assert):
                 if not truth(fold(st.test)):
